@@ -4,6 +4,8 @@ import (
 	"fmt"
 
 	"github.com/trustbloc/sidetree-core-go/pkg/api/operation"
+	"github.com/trustbloc/sidetree-core-go/pkg/commitment"
+	"github.com/trustbloc/sidetree-core-go/pkg/versions/1_0/client"
 
 	"verif/mc/fx"
 	"verif/mc/hx"
@@ -14,9 +16,9 @@ func init() { register("C12", c12) }
 
 func c12(r *hx.Run) {
 	fx.Quiet()
-	client, v := stdClient()
+	protoClient, v := stdClient()
 	delta := v.P.MaxOperationTimeDelta
-	r.Rule = "intake: every pairing (revealed key k_i, next commitment = commitment of k_j under SHA2-256 or SHA2-512, reveal value under either algorithm) for update and recover, and every pairing (update commitment, recovery commitment) for create and recover, for all five key types, parsed by the real parser: accepted iff the next commitment is not the commitment of the revealed key / the two commitments differ. Resolution: every history made of a forward commitment chain of length <=4 (update chain and recovery chain) plus 1 or 2 commitment-closing operations (self loops and cycles of length 2..4) anchored at every position, with and without the legitimate continuation, on the real processor vs ref/sidetree (which never revisits a commitment). Non-trivial: pairings with i=j, histories where a closing operation is a candidate for the commitment in force."
+	r.Rule = "intake: every pairing (revealed key k_i, next commitment = commitment of k_j under SHA2-256 or SHA2-512, reveal value under either algorithm) for update and recover, and every pairing (update commitment, recovery commitment) for create and recover, for all five key types, parsed by the real parser: accepted iff the next commitment is not the commitment of the revealed key / the two commitments differ; the same pairings through the client request builders (update, recover, create): a forbidden pairing is not built (or at least never both built and accepted), a permitted one is built. Resolution: every history made of a forward commitment chain of length <=4 (update chain and recovery chain) plus 1 or 2 commitment-closing operations (self loops and cycles of length 2..4) anchored at every position, with and without the legitimate continuation, on the real processor vs ref/sidetree (which never revisits a commitment). Non-trivial: pairings with i=j, histories where a closing operation is a candidate for the commitment in force."
 	// ---------- intake
 	for _, kt := range fx.KeyTypes {
 		keys := []*fx.Key{fx.NewKey(kt, "c12/k0"), fx.NewKey(kt, "c12/k1"), fx.NewKey(kt, "c12/k2")}
@@ -94,6 +96,72 @@ func c12(r *hx.Run) {
 						if (err == nil) != (i != j) {
 							r.Violation(fmt.Sprintf("intake-equal-commitments:recover:equal=%v", i == j), caseID,
 								fmt.Sprintf("recover (%s) with next recovery commitment of key %d and update commitment of key %d: accepted=%v err=%v", kt, i, j, err == nil, err), nil)
+						}
+					}
+				}
+			}
+		}
+	}
+
+	// ---------- request builders: the client refuses to build what intake would refuse
+	for _, kt := range fx.KeyTypes {
+		keys := []*fx.Key{fx.NewKey(kt, "c12/k0"), fx.NewKey(kt, "c12/k1")}
+		other := fx.NewKey(kt, "c12/other")
+		patches := toPatches([]interface{}{fx.AddServicePatch("s1", "https://example.com/s1")})
+		for i := range keys {
+			for j := range keys {
+				for _, code := range []uint{fx.SHA256, fx.SHA512} {
+					jwkI, err := libJWK(keys[i], "")
+					if err != nil {
+						panic(err)
+					}
+					rv, _ := commitment.GetRevealValue(jwkI, code)
+					next := fx.Commit(keys[j], code)
+					builders := map[string]func() ([]byte, error){
+						"update": func() ([]byte, error) {
+							return client.NewUpdateRequest(&client.UpdateRequestInfo{DidSuffix: "EiSuffix", Patches: patches, UpdateCommitment: next, UpdateKey: jwkI, MultihashCode: code,
+								Signer: libSigner(keys[i], ""), RevealValue: rv})
+						},
+						"recover": func() ([]byte, error) {
+							return client.NewRecoverRequest(&client.RecoverRequestInfo{DidSuffix: "EiSuffix", Patches: patches, RecoveryCommitment: next, UpdateCommitment: fx.Commit(other, code), RecoveryKey: jwkI,
+								MultihashCode: code, Signer: libSigner(keys[i], ""), RevealValue: rv})
+						},
+						"recover-equal-commitments": func() ([]byte, error) {
+							return client.NewRecoverRequest(&client.RecoverRequestInfo{DidSuffix: "EiSuffix", Patches: patches, RecoveryCommitment: fx.Commit(keys[1-i], code), UpdateCommitment: fx.Commit(keys[1-j], code),
+								RecoveryKey: jwkI, MultihashCode: code, Signer: libSigner(keys[i], ""), RevealValue: rv})
+						},
+						"create-equal-commitments": func() ([]byte, error) {
+							return client.NewCreateRequest(&client.CreateRequestInfo{Patches: patches, RecoveryCommitment: fx.Commit(keys[i], code), UpdateCommitment: next, MultihashCode: code})
+						},
+					}
+					for name, build := range builders {
+						caseID := fmt.Sprintf("builder|%s|%s|i=%d|j=%d|c=%d", kt, name, i, j, code)
+						if !r.Want(caseID) {
+							continue
+						}
+						req, err := build()
+						r.Eval()
+						r.State()
+						r.Trans(1)
+						bad := i == j // the pairing the statement forbids
+						if name == "recover-equal-commitments" {
+							// recovery commitment of key 1-i, update commitment of key 1-j: equal iff i == j; the revealed key is never re-committed
+							bad = i == j
+						}
+						if bad {
+							r.Nontrivial(caseID)
+						}
+						r.Outcome(fmt.Sprintf("builder %s forbidden=%v built=%v", name, bad, err == nil))
+						if bad && err == nil {
+							// the builder is the first line of defence only if intake would not refuse it either
+							if _, perr := v.Parser.Parse("did:sidetree", req); perr == nil {
+								r.Violation("builder-and-intake-accept:"+name, caseID, fmt.Sprintf("%s (%s): forbidden commitment pairing built and accepted at intake", name, kt), nil)
+							} else if name != "recover-equal-commitments" {
+								r.Violation("builder-builds-forbidden:"+name, caseID, fmt.Sprintf("%s (%s): the client builder produced a request that re-commits to the revealed key / uses equal commitments (intake refuses it: %v)", name, kt, perr), nil)
+							}
+						}
+						if !bad && err != nil {
+							r.Violation("builder-refuses-valid:"+name, caseID, fmt.Sprintf("%s (%s): valid commitment pairing refused by the builder: %v", name, kt, err), nil)
 						}
 					}
 				}
@@ -188,7 +256,7 @@ func c12(r *hx.Run) {
 					}
 					placed := append(append([]fx.Placed{}, ex...), base...)
 					tag := fmt.Sprintf("cyc|%s|len=%d|v=%d", chainType, length, variant)
-					compareWithModel(r, tag, client, pool, placed, delta)
+					compareWithModel(r, tag, protoClient, pool, placed, delta)
 					st, err := ResolveModel(placed, nil, delta)
 					if err == nil {
 						seen := map[string]bool{}
